@@ -12,7 +12,9 @@
 EXTENDS Naturals, Sequences, FiniteSets
 
 Cwds == {"in", "parent", "sub", "other"}
-Stale == {"absent", "junk", "long", "sol", "R"}       \* "long": other content, longer than any report
+\* "long": other content, longer than any report; "samelen": other content of exactly the length of the report that
+\* the next run in this directory will write (a size-only "is it up to date" test must not keep it)
+Stale == {"absent", "junk", "long", "sol", "R", "samelen"}
 \* all patterns / a configuration selecting one pattern / a configuration selecting none (no finding at all):
 \* reports "R", "R1" and the empty report "R0" -- which is still written
 Modes == {"full", "one", "none"}
